@@ -459,6 +459,11 @@ class Prov:
                     base = _enumerated(t)
                     if base is not None:
                         return ("index", base, ("field", t, "0"))
+                if name in ("0", "1"):
+                    # `for (a, b) in xs.iter_mut().zip(ys.iter())`: the halves are xs[k] and ys[k] of one running position k
+                    zb = _zipped(t)
+                    if zb is not None:
+                        return ("index", zb[int(name)], ("call", "core::iter::Zip::position", ()))
                 return ("field", t, name)
             if "dc" in e:
                 if t[0] == "agg" and t[2] == e["dc"]:
@@ -554,6 +559,26 @@ def _enumerated(t):
             enum = True
         x = x[2][0]
     return x if enum else None
+
+
+def _zipped(t):
+    """(X, Y) when t is `X.iter..().zip(Y.iter..()).next()?`, else None."""
+    if t[0] != "q":
+        return None
+    c = t[1]
+    if c[0] != "call" or c[1].rsplit("::", 1)[-1] != "next" or len(c[2]) != 1:
+        return None
+    x = c[2][0]
+    while x[0] == "call" and x[1].rsplit("::", 1)[-1] in ("by_ref", "into_iter") and len(x[2]) == 1:
+        x = x[2][0]
+    if not (x[0] == "call" and x[1].rsplit("::", 1)[-1] == "zip" and len(x[2]) == 2):
+        return None
+    out = []
+    for y in x[2]:
+        while y[0] == "call" and y[1].rsplit("::", 1)[-1] in ("iter", "iter_mut", "into_iter", "by_ref") and len(y[2]) == 1:
+            y = y[2][0]
+        out.append(y)
+    return tuple(out)
 
 
 def prov_assuming(fn, assumptions, ctx=None, cut=False):
